@@ -18,6 +18,7 @@
 #include <fcppt/tuple/object_impl.hpp>
 #include <fcppt/variant/object_impl.hpp>
 
+#include <algorithm>
 #include <string>
 
 namespace
@@ -49,35 +50,51 @@ auto letter()
   });
 }
 
-// parse _input with _parser; on success the result must hold exactly the created values number _keep[0], _keep[1], ...
-// (indices into the creation order), on failure nothing is compared.  No created value may ever be copied.
+// parse _input with _parser; on success the result must hold values with exactly the payloads _want (in result order), each
+// of them one of the values the converters created during this parse (distinct, not moved-from).  No created value may ever
+// be copied.  Which and how many values the converters create on the way (backtracking, failed branches) is not examined,
+// and the success/failure expectation itself belongs to C02: if it does not hold, that is only counted.
 template <class Parser>
 void parse_case(std::string const &_op, std::string const &_grammar, Parser const &_parser, std::string const &_input, bool const _want_success,
-                std::vector<int> const &_keep)
+                std::vector<int> const &_want)
 {
-  run_case(_op, _grammar + " on \"" + _input + "\"", !_keep.empty(), [&](ctx &x) {
+  run_case(_op, _grammar + " on \"" + _input + "\"", !_want.empty(), [&](ctx &x) {
     g_made.clear();
     g_payloads.clear();
     x.arm();
     auto r = fp::parse_string(_parser, std::string(_input));
     x.disarm();
-    VRT_CHECK(r.has_success() == _want_success, x.op() + ":success", "success=%d, expected %d (harness grammar expectation)",
-              int(r.has_success()), int(_want_success));
+    if (r.has_success() != _want_success)
+    {
+      vrt::count("info:" + x.op() + ":success_differs_from_harness_expectation");
+      return;
+    }
     if (r.has_success())
     {
-      std::vector<int> want;
-      for (int k : _keep)
-        want.push_back(k < static_cast<int>(g_made.size()) ? g_made[static_cast<std::size_t>(k)] : -1);
-      x.result_is(r.get_success_unsafe(), want);
+      std::vector<item> const got = items_of(r.get_success_unsafe());
+      std::vector<int> got_payloads;
+      std::set<int> ids;
+      for (item const &i : got)
+      {
+        got_payloads.push_back(i.payload);
+        VRT_CHECK(!i.moved, x.op() + ":result:holds_moved_from_element", "result element id %d is moved-from", i.id);
+        VRT_CHECK(std::find(g_made.begin(), g_made.end(), i.id) != g_made.end(), x.op() + ":result:unexpected_element",
+                  "result element id %d was not created by a converter during this parse", i.id);
+        VRT_CHECK(ids.insert(i.id).second, x.op() + ":result:element_duplicated", "id %d appears twice in the result", i.id);
+      }
+      if (std::none_of(got.begin(), got.end(), [](item const &i) { return i.moved; }))
+        VRT_CHECK(got_payloads == _want, x.op() + ":result:wrong_elements", "result payloads %s, expected %s", show(got_payloads).c_str(),
+                  show(_want).c_str());
     }
   });
 }
 
-std::vector<int> iota(int n)
+// payloads 1..n (the digits '1'.. of the inputs below)
+std::vector<int> digits(int n)
 {
   std::vector<int> r;
   for (int i = 0; i < n; ++i)
-    r.push_back(i);
+    r.push_back(i + 1);
   return r;
 }
 
@@ -87,15 +104,15 @@ void parse_sequence()
   auto const d3 = digit() >> digit() >> digit();
   auto const dl = digit() >> fp::literal{'x'} >> letter();
   auto const nested = digit() >> (letter() >> digit());
-  parse_case("parse::sequence", "digit >> digit", d2, "12", true, {0, 1});
+  parse_case("parse::sequence", "digit >> digit", d2, "12", true, {1, 2});
   parse_case("parse::sequence", "digit >> digit", d2, "1", false, {});
   parse_case("parse::sequence", "digit >> digit", d2, "1a", false, {});
   parse_case("parse::sequence", "digit >> digit", d2, "", false, {});
-  parse_case("parse::sequence", "digit >> digit >> digit", d3, "123", true, {0, 1, 2});
+  parse_case("parse::sequence", "digit >> digit >> digit", d3, "123", true, {1, 2, 3});
   parse_case("parse::sequence", "digit >> digit >> digit", d3, "12", false, {});
-  parse_case("parse::sequence", "digit >> 'x' >> letter", dl, "7xc", true, {0, 1});
+  parse_case("parse::sequence", "digit >> 'x' >> letter", dl, "7xc", true, {7, 2});
   parse_case("parse::sequence", "digit >> 'x' >> letter", dl, "7x7", false, {});
-  parse_case("parse::sequence", "digit >> (letter >> digit)", nested, "1a2", true, {0, 1, 2});
+  parse_case("parse::sequence", "digit >> (letter >> digit)", nested, "1a2", true, {1, 0, 2});
 }
 
 void parse_repetition()
@@ -110,22 +127,29 @@ void parse_repetition()
     std::string in;
     for (int i = 0; i < n; ++i)
       in += static_cast<char>('1' + i);
-    parse_case("parse::repetition", "*digit", rep, in, true, iota(n));
-    parse_case("parse::repetition", "*digit >> letter", rep_then, in + "b", true, iota(n + 1));
-    parse_case("parse::repetition_plus", "+digit", plus, in, n > 0, iota(n));
+    parse_case("parse::repetition", "*digit", rep, in, true, digits(n));
+    {
+      std::vector<int> w = digits(n);
+      w.push_back(1); // 'b'
+      parse_case("parse::repetition", "*digit >> letter", rep_then, in + "b", true, w);
+    }
+    parse_case("parse::repetition_plus", "+digit", plus, in, n > 0, digits(n));
     std::string pairs;
+    std::vector<int> pair_payloads;
     for (int i = 0; i < n; ++i)
     {
       pairs += static_cast<char>('1' + i);
       pairs += static_cast<char>('a' + i);
+      pair_payloads.push_back(i + 1);
+      pair_payloads.push_back(i);
     }
-    parse_case("parse::repetition", "*(digit >> letter)", rep_pair, pairs, true, iota(2 * n));
+    parse_case("parse::repetition", "*(digit >> letter)", rep_pair, pairs, true, pair_payloads);
   }
   // backtracking inside a repetition: "1a2" -- the third element is created, the pair fails, the value is dropped; the
   // trailing "2" then makes the whole parse fail (parse_string wants all input consumed)
   parse_case("parse::repetition", "*(digit >> letter)", rep_pair, "1a2", false, {});
-  parse_case("parse::optional", "-digit >> letter", opt, "5c", true, {0, 1});
-  parse_case("parse::optional", "-digit >> letter", opt, "c", true, {0});
+  parse_case("parse::optional", "-digit >> letter", opt, "5c", true, {5, 2});
+  parse_case("parse::optional", "-digit >> letter", opt, "c", true, {2});
 }
 
 void parse_alternative()
@@ -133,13 +157,13 @@ void parse_alternative()
   auto const alt = digit() | letter();
   auto const alt_seq = (digit() >> letter()) | (digit() >> digit());
   auto const rep_alt = *(digit() | letter());
-  parse_case("parse::alternative", "digit | letter", alt, "4", true, {0});
-  parse_case("parse::alternative", "digit | letter", alt, "d", true, {0});
+  parse_case("parse::alternative", "digit | letter", alt, "4", true, {4});
+  parse_case("parse::alternative", "digit | letter", alt, "d", true, {3});
   parse_case("parse::alternative", "digit | letter", alt, "x", false, {});
   // left branch creates a value, fails at the second element, right branch starts over: values 1 and 2 are the result
   parse_case("parse::alternative", "(digit >> letter) | (digit >> digit)", alt_seq, "12", true, {1, 2});
-  parse_case("parse::alternative", "(digit >> letter) | (digit >> digit)", alt_seq, "1a", true, {0, 1});
-  parse_case("parse::alternative", "*(digit | letter)", rep_alt, "1a2", true, {0, 1, 2});
+  parse_case("parse::alternative", "(digit >> letter) | (digit >> digit)", alt_seq, "1a", true, {1, 0});
+  parse_case("parse::alternative", "*(digit | letter)", rep_alt, "1a2", true, {1, 0, 2});
   parse_case("parse::alternative", "*(digit | letter)", rep_alt, "", true, {});
 }
 }
